@@ -17,7 +17,11 @@ type c13Case struct {
 	C2, L2, K2 int
 }
 
-func c13Run(cs c13Case) (fs []F) {
+func c13Run(cs c13Case) []F {
+	return core.Guard("Alloc", func() []F { return c13RunRaw(cs) })
+}
+
+func c13RunRaw(cs c13Case) (fs []F) {
 	t := typeByName(cs.Type)
 	ty := dyn.Types[t]
 	fail := func(kind, format string, a ...any) {
@@ -76,7 +80,7 @@ func init() {
 	core.Register(&core.Prop{
 		ID: "C13", Level: "exploration", Design: "§5 C13",
 		Run: func(c *core.Ctx) {
-			chans := []int{1, 2, 3, 4, 5, 6, 7, 8, 9, 16, 32, 64, 65, 100}
+			chans := []int{1, 2, 3, 4, 5, 6, 7, 8, 9, 16, 32, 64, 65, 100, 255, 256, 300, 1024}
 			caps := []int{0, 1, 2, 3, 4, 5, 6, 7, 8, 63, 64, 65, 1000, 1025, 4096, 20000}
 			if c.Quick() {
 				caps = []int{0, 1, 2, 3, 4, 5, 6, 7, 8, 63, 64, 65, 1000, 1025}
@@ -141,7 +145,7 @@ func init() {
 			c.Sample(cases[0])
 			c.Sample(cases[len(cases)/2])
 			c.Sample(cases[len(cases)-1])
-			c.Set("rule", "every (element type in 13 built-in + 13 named) x C in {1..9,16,32,64,65,100} x K in {0..8,63,64,65,1000,1025[,4096,20000]} x L (all L<=K for K<=8, else {0,1,K-1,K}), plus all ordered pairs of 10 shapes per type, plus 600 allocations in a row kept alive and re-inspected; a case is non-trivial when K>0 (there is storage to inspect); cases are distinct by construction (each tuple enumerated once)")
+			c.Set("rule", "every (element type in 13 built-in + 13 named) x C in {1..9,16,32,64,65,100,255,256,300,1024} x K in {0..8,63,64,65,1000,1025[,4096,20000]} x L (all L<=K for K<=8, else {0,1,K-1,K}), plus all ordered pairs of 10 shapes per type, plus 600 allocations in a row kept alive and re-inspected; a case is non-trivial when K>0 (there is storage to inspect); cases are distinct by construction (each tuple enumerated once)")
 			c.Set("types", len(dyn.Types))
 			c.Assume("the full capacity is inspected through Slice(0,Capacity), whose own correctness is C02's subject", "linux/amd64 only")
 		},
